@@ -527,7 +527,7 @@ def run_programs(exe, programs, workdir, tag="run", procs=8, timeout=600, env=No
             # crashed / timed out inside program start + len(ex) - 1
             bad = start + max(len(ex) - 1, 0)
             with open(ep, errors="replace") as ef:
-                tail = ef.read()[-3000:]
+                tail = ef.read()[-20000:]
             out_crashes.append((bad, r.returncode, tail))
             start = bad + 1
             rounds += 1
@@ -568,13 +568,16 @@ def conformance(c, exe, programs, spec_dir, module, cfg, tag, meta=None, procs=8
         # confirm by re-running alone
         e2, c2 = run_programs(exe, [programs[i]], os.path.join(wd, "re"), tag="crash%d" % i, procs=1, timeout=run_timeout, env=env, extra_args=extra_args)
         if c2:
-            k = known(programs[i], execs[i] or [], -1) if known else None
+            # (the death of the driver is shown to the known-findings predicate as a last pseudo-event carrying the report)
+            k = known(programs[i], (execs[i] or []) + [{"e": "__died__", "rc": c2[0][1], "stderr": c2[0][2]}], -1) if known else None
             if k:
                 c.known(k)
                 continue
             path = c.save_replay("%s-crash-%d.prog" % (tag, i), programs[i])
             c.save_replay("%s-crash-%d.stderr" % (tag, i), c2[0][2])
-            c.violation("driver died (rc=%d) while the library executed this program: %s" % (c2[0][1], c2[0][2][-400:].replace("\n", " | ")), path)
+            rep = c2[0][2]
+            key = [ln.strip() for ln in rep.splitlines() if re.search(r"SUMMARY:|ERROR: AddressSanitizer|Assertion|runtime error|LeakSanitizer|    #[0-3] ", ln)][:8]
+            c.violation("driver died (rc=%d) while the library executed this program: %s" % (c2[0][1], " | ".join(key) if key else rep[-400:].replace("\n", " | ")), path)
         else:
             raise ToolFailure("driver crash on program %d did not repeat (rc=%d): %s" % (i, rc, tail[-500:]))
     crashed = set(i for (i, _, _) in crashes)
